@@ -329,6 +329,19 @@ func runC07(c *Ctx) {
 }
 
 func init() {
-	runners["C06"] = runC06
-	runners["C07"] = runC07
+	// C06Asm / C07Asm theorems are about the regenerated listings under the instruction semantics of Model/ISAVal.lean:
+	// the streams that compare those listings with the CPU and the specification (asmval.go: asm.ghash, asm.seal,
+	// asm.open, and the arm64 listings model-vs-spec) are part of THESE checks' verdicts too, not only of C05's
+	runners["C06"] = func(c *Ctx) {
+		runC06(c)
+		rule := c.res.Rule
+		runAsmValGCM(c)
+		c.res.Rule = rule + " || listings: gHashBlocks / sealAsm / openAsm of the regenerated amd64 listing under the value interpreter vs the CPU vs the specification (lengths over every ladder class, nonce kinds, tag sizes, in place); arm64 gHashBlocks / xorN listings vs the specification"
+	}
+	runners["C07"] = func(c *Ctx) {
+		runC07(c)
+		rule := c.res.Rule
+		runAsmValGCM(c)
+		c.res.Rule = rule + " || listings: as C06 (asm.open: valid and forged tags)"
+	}
 }
